@@ -52,9 +52,11 @@ Definition all_same (obs : list cls) : Prop := Forall (fun c => c = Same) obs.
 Definition all_same_b (obs : list cls) : bool := forallb is_same obs.
 
 (* byteslicepool: what a caller sees through the slice it got is exactly what it appended
-   itself since the Get — whatever was in memory before. *)
+   itself since the Get (zeroes where it grew the slice with Resize) — whatever was in memory
+   before and whatever other callers did with the pool. *)
 Definition no_carry (mincap : nat) : Prop :=
-  forall h0 es s t, brun mincap (binit h0) es = Some s -> visible s t = appended t es [].
+  forall h0 es s t, brun mincap (binit h0) es = Some s -> grows_only mincap (binit h0) es ->
+                    visible s t = appended t es [].
 
 (* observations of look-ups: same name <-> same logger *)
 Fixpoint same_name_same_logger (obs : list (Z * Z)) : bool :=
@@ -71,3 +73,42 @@ Definition reg_consistent (obs : list (Z * Z)) : Prop :=
 
 (* options applied through the registry reach every logger a caller was given *)
 Definition all_reached (r : list bool) : Prop := Forall (fun b => b = true) r.
+
+(* byteslicepool sequences over the whole API by several users: after every operation the acting
+   user sees only zeroes or bytes it appended itself since its Get; a fresh Get shows nothing *)
+Inductive pop := PGet (u cap : Z) | PAppend (u : Z) (d : list N) | PResize (u n : Z) | PPut (u : Z).
+
+Definition user_of (o : pop) : Z :=
+  match o with PGet u _ | PAppend u _ | PResize u _ | PPut u => u end.
+
+Definition wget (w : list (Z * list N)) (u : Z) : list N :=
+  match find (fun p : Z * list N => (fst p =? u)%Z) w with Some p => snd p | None => [] end.
+
+Definition wnext (w : list (Z * list N)) (o : pop) : list (Z * list N) :=
+  match o with
+  | PGet u _ => (u, []) :: w
+  | PAppend u d => (u, wget w u ++ d) :: w
+  | _ => w
+  end.
+
+Fixpoint pool_seq_ok (w : list (Z * list N)) (ops : list pop) (seen : list (list N)) : Prop :=
+  match ops, seen with
+  | [], [] => True
+  | o :: ops', sn :: seen' =>
+      let w' := wnext w o in
+      (match o with PGet _ _ | PPut _ => sn = [] | _ => True end) /\
+      (forall x, In x sn -> x = 0%N \/ In x (wget w' (user_of o))) /\
+      pool_seq_ok w' ops' seen'
+  | _, _ => False
+  end.
+
+Fixpoint pool_seq_ok_b (w : list (Z * list N)) (ops : list pop) (seen : list (list N)) : bool :=
+  match ops, seen with
+  | [], [] => true
+  | o :: ops', sn :: seen' =>
+      let w' := wnext w o in
+      (match o with PGet _ _ | PPut _ => match sn with [] => true | _ => false end | _ => true end)
+      && forallb (fun x => (x =? 0)%N || existsb (N.eqb x) (wget w' (user_of o))) sn
+      && pool_seq_ok_b w' ops' seen'
+  | _, _ => false
+  end.
